@@ -152,6 +152,23 @@ pub mod base64 {
     pub struct DecodeError { pub _p: () }
     /// text produced by engine `e` for bytes `b` (the engines are distinguished by their ghost id)
     pub uninterp spec fn b64_text(e: int, b: Seq<u8>) -> Seq<u8>;
+    /// base64: distinct byte strings have distinct texts
+    #[verifier::external_body]
+    pub proof fn axiom_b64_injective(e: int, a: Seq<u8>, b: Seq<u8>)
+        ensures b64_text(e, a) == b64_text(e, b) ==> a == b,
+    {}
+    /// base64 (URL-safe engines 2 and 3): the text uses only [A-Za-z0-9_-]; in particular never ':'
+    #[verifier::external_body]
+    pub proof fn axiom_b64_urlsafe_alphabet(e: int, b: Seq<u8>, i: int)
+        requires e == 2 || e == 3, 0 <= i < b64_text(e, b).len(),
+        ensures ({ let c = b64_text(e, b)[i];
+            (0x41 <= c <= 0x5a) || (0x61 <= c <= 0x7a) || (0x30 <= c <= 0x39) || c == 0x2d || c == 0x5f }),
+    {}
+    /// base64: the text is at least as long as the input
+    #[verifier::external_body]
+    pub proof fn axiom_b64_len(e: int, b: Seq<u8>)
+        ensures b64_text(e, b).len() >= b.len(),
+    {}
     pub trait Engine {
         spec fn engine_id(&self) -> int;
         fn encode<T: AsRef<[u8]>>(&self, input: T) -> (r: String)
